@@ -17,6 +17,7 @@ PT2 = [0.05, 0.01]
 SYN = [0.8369, 0.001, 0.002, 0.0007, -1.5e-5, 0.0]
 MAPOPTS = [(1, 2e-2), (2, 2e-2), (1, 1e-2)]          # (n_iter, dt)
 SECTIONS = ["q3", "q2"]
+STRATEGIES = ["axis_aligned", "radial"]
 
 ALPHABET = (
     [("setdeg", d) for d in DEGS]
@@ -31,10 +32,10 @@ ALPHABET = (
     + [("lp_read", n) for n in ("position", "energy", "jacobi", "eigenvalues", "linear_data", "normal_form_transform", "is_stable")]
     + [("bad_degree",), ("save_load",)]
     + [("map_compute", s, o) for s in range(len(SECTIONS)) for o in range(len(MAPOPTS))]
-    + [("map_refetch",), ("map_points", 0), ("map_points", 1), ("map_states", 0)]
+    + [("map_refetch",), ("map_points", 0), ("map_points", 1), ("map_states", 0), ("map_set_strategy", 0), ("map_set_strategy", 1), ("map_save_load",)]
 )
 WEIGHTS = {"setdeg": 1.5, "cm_ham": 1.2, "read_degree": 0.8, "compute": 1.0, "to_synodic4": 0.6, "to_synodic2": 0.5, "to_cm": 0.5, "lp_ham": 1.0,
-           "lp_get_cm": 1.0, "lp_read": 0.9, "lp_hamsys": 0.6, "lp_genfun": 0.4, "lp_hams": 0.4, "bad_degree": 0.4, "save_load": 0.2, "map_compute": 1.6, "map_refetch": 0.5, "map_points": 0.8, "map_states": 0.4}
+           "lp_get_cm": 1.0, "lp_read": 0.9, "lp_hamsys": 0.6, "lp_genfun": 0.4, "lp_hams": 0.4, "bad_degree": 0.4, "save_load": 0.2, "map_compute": 1.6, "map_refetch": 0.5, "map_points": 0.8, "map_states": 0.4, "map_set_strategy": 0.7, "map_save_load": 0.4}
 REDUCED = [("setdeg", 3), ("setdeg", 5), ("cm_ham", 5), ("cm_ham", 4), ("read_degree",), ("compute", "center_manifold_real"), ("to_synodic4",),
            ("lp_ham", 4, "physical"), ("lp_get_cm", 4), ("map_compute", 0, 0), ("map_compute", 0, 1), ("map_refetch",)]
 MUTATORS = {"setdeg", "cm_ham", "bad_degree", "save_load"}
@@ -71,6 +72,19 @@ def _mapopts(i):
     n_iter, dt = MAPOPTS[i]
     return CenterManifoldMapOptions(iteration=IterationOptions(n_iter=n_iter), seeding=SeedingOptions(n_seeds=4), workers=WorkerOptions(n_workers=1),
                                     integration=IntegrationOptions(dt=dt, order=4, max_steps=1500))
+
+
+def _mapconfig(strategy):
+    from hiten.algorithms.poincare.centermanifold.config import CenterManifoldMapConfig
+    from hiten.algorithms.types.configs import IntegrationConfig
+    return CenterManifoldMapConfig(seed_strategy=strategy, seed_axis=None, section_coord="q3", integration=IntegrationConfig(method="fixed"))
+
+
+def _twin_map(U, c, strategy):
+    pm = _cm(_lp(U, "sys_twin", c["where"]), c["deg"]).poincare_map(ENERGY)
+    if strategy != "axis_aligned":
+        pm.config = _mapconfig(strategy)
+    return pm
 
 
 def hsig(h):
@@ -211,21 +225,61 @@ def run_history(ctx: RunCtx, U) -> None:
             mutated = True
             continue
         # ------------------------------------------------------------ map operations
-        if k in ("map_compute", "map_refetch", "map_points", "map_states"):
+        if k in ("map_compute", "map_refetch", "map_points", "map_states", "map_set_strategy", "map_save_load"):
             if k == "map_refetch" or c["map"] is None:
                 out = attempt(lambda: c["real"].poincare_map(ENERGY))
                 if out.failed:
                     raise Violation("C20/map/poincare_map-raised", f"{out.kind()}: {out.exc} | history: {hist}")
-                c["map"] = {"real": out.value, "last": {}}
+                # the manifold hands out ONE map object per (degree, energy): its configuration is part of that object's state
+                held = [o["map"] for o in cms if o["map"] is not None and o["map"]["real"] is out.value]
+                c["map"] = held[0] if held else {"real": out.value, "last": {}, "strategy": "axis_aligned"}
                 if k == "map_refetch":
                     log.add("op", entry, "ok")
                     continue
             m = c["map"]
+            if k == "map_set_strategy":
+                st = STRATEGIES[op[1]]
+                out = attempt(lambda: setattr(m["real"], "config", _mapconfig(st)))
+                if out.failed:
+                    raise Violation("C20/map/set-config-raised", f"{out.kind()}: {out.exc} | history: {hist}")
+                if st != m["strategy"]:
+                    m["strategy"] = st
+                    m["last"] = {}          # stored sections belong to the previous configuration: unset or recomputed, never served
+                    m["stale_ok"] = True
+                log.add("op", entry, "ok")
+                mutated = True
+                continue
+            if k == "map_save_load":
+                from hiten.system.maps.center import CenterManifoldMap
+                path = base.tmp_path(f"map_{len(hist)}_{j}.pkl")
+                out = attempt(lambda: m["real"].save(path))
+                if out.failed:
+                    raise Violation("C20/map/save-raised", f"{out.kind()}: {out.exc} | history: {hist}")
+                out = attempt(lambda: CenterManifoldMap.load(path))
+                try:
+                    os.remove(path)
+                except OSError:
+                    pass
+                if out.failed:
+                    raise Violation("C20/map/load-raised", f"{out.kind()}: {out.exc} | history: {hist}")
+                ctx.probe("reload_then_continue")
+                en = attempt(lambda: float(out.value.energy))
+                if en.failed or en.value != ENERGY:
+                    raise Violation("C20/map/roundtrip-energy", f"reloaded map has energy {en.value if not en.failed else en.kind()}, saved with {ENERGY} | history: {hist}")
+                for sec, (oi, deg_then) in m["last"].items():
+                    if deg_then != c["deg"]:
+                        continue
+                    before = attempt(lambda: np.asarray(m["real"].get_points(section_coord=sec), float))
+                    after = attempt(lambda: np.asarray(out.value.get_points(section_coord=sec), float)) if out.value.has_section(sec) else None
+                    if not before.failed and (after is None or after.failed or not eq(before.value, after.value)):
+                        raise Violation("C20/map/roundtrip-section", f"the stored {sec} section is lost or changed by save/load | history: {hist}")
+                log.add("op", entry, "ok")
+                continue
             if k == "map_compute":
                 sec, oi = SECTIONS[op[1]], op[2]
                 r_out = attempt(lambda: map_rows(m["real"].compute(section_coord=sec, options=_mapopts(oi))))
-                t_out = twin_memo(("map", c["where"], c["deg"], sec, oi), lambda: attempt(
-                    lambda: map_rows(_cm(_lp(U, "sys_twin", c["where"]), c["deg"]).poincare_map(ENERGY).compute(section_coord=sec, options=_mapopts(oi)))))
+                t_out = twin_memo(("map", c["where"], c["deg"], sec, oi, m["strategy"]), lambda: attempt(
+                    lambda: map_rows(_twin_map(U, c, m["strategy"]).compute(section_coord=sec, options=_mapopts(oi)))))
                 log.add("op", entry, r_out.kind(), digest(r_out.value) if not r_out.failed else None)
                 if r_out.failed != t_out.failed:
                     raise Violation("C20/map/outcome-compute", f"map.compute({sec}, {MAPOPTS[oi]}): {r_out.kind()} ({r_out.exc}) on the long-lived map, "
@@ -250,16 +304,16 @@ def run_history(ctx: RunCtx, U) -> None:
                 if r_out.failed:
                     ctx.probe("map_points_unset")
                     continue
-                t_out = twin_memo(("map", c["where"], c["deg"], sec, oi), lambda: attempt(
-                    lambda: map_rows(_cm(_lp(U, "sys_twin", c["where"]), c["deg"]).poincare_map(ENERGY).compute(section_coord=sec, options=_mapopts(oi)))))
+                t_out = twin_memo(("map", c["where"], c["deg"], sec, oi, m["strategy"]), lambda: attempt(
+                    lambda: map_rows(_twin_map(U, c, m["strategy"]).compute(section_coord=sec, options=_mapopts(oi)))))
                 got = r_out.value
                 got = got[np.lexsort(tuple(got.T[::-1]))] if len(got) else got
                 exp = t_out.value["points"] if k == "map_points" else t_out.value["states"]
                 exp = exp[np.lexsort(tuple(exp.T[::-1]))] if len(exp) else exp
                 if (t_out.failed or not eq(got, exp)) and deg_then != c["deg"] and known_active("C20-K2-stored-map-section-survives-degree-change"):
                     # K2: exactly the section computed at the earlier degree
-                    old = twin_memo(("map", c["where"], deg_then, sec, oi), lambda: attempt(
-                        lambda: map_rows(_cm(_lp(U, "sys_twin", c["where"]), deg_then).poincare_map(ENERGY).compute(section_coord=sec, options=_mapopts(oi)))))
+                    old = twin_memo(("map", c["where"], deg_then, sec, oi, m["strategy"]), lambda: attempt(
+                        lambda: map_rows(_twin_map(U, dict(c, deg=deg_then), m["strategy"]).compute(section_coord=sec, options=_mapopts(oi)))))
                     oldp = (old.value["points"] if k == "map_points" else old.value["states"]) if not old.failed else None
                     if oldp is not None and eq(got, oldp[np.lexsort(tuple(oldp.T[::-1]))] if len(oldp) else oldp):
                         ctx.note_known("C20-K2-stored-map-section-survives-degree-change")
